@@ -1026,7 +1026,10 @@ func (a *align) AddGaps(lenprop float64, prop float64) {
 
 func (a *align) Append(al Alignment) (err error) {
 	al.IterateAll(func(name string, sequence []uint8, comment string) bool {
-		err = a.AddSequenceChar(name, sequence, comment)
+		// The appended sequences own their residues (they do not share them with al)
+		newseq := make([]uint8, len(sequence))
+		copy(newseq, sequence)
+		err = a.AddSequenceChar(name, newseq, comment)
 		return err != nil
 
 	})
